@@ -610,3 +610,147 @@ func cmdC03(args []string) error {
 	}
 	return nil
 }
+
+// ---------------------------------------------------------------------------
+// C14: wire.ValuesAreEqual on pairs of wire values
+
+func init() { register("c14w", cmdC14W) }
+
+func weq(a, b wire.Value) (res string) {
+	defer func() {
+		if recover() != nil {
+			res = "panic"
+		}
+	}()
+	if wire.ValuesAreEqual(a, b) {
+		return "true"
+	}
+	return "false"
+}
+
+// perturb returns a copy of v with one small change (leaf, length, order)
+func perturb(r *rand.Rand, v wire.Value) wire.Value {
+	switch v.Type() {
+	case wire.TStruct:
+		fs := append([]wire.Field(nil), v.GetStruct().Fields...)
+		if len(fs) == 0 || r.Intn(4) == 0 {
+			return wire.NewValueStruct(wire.Struct{Fields: append(fs, wire.Field{ID: 12345, Value: wire.NewValueBool(true)})})
+		}
+		i := r.Intn(len(fs))
+		switch r.Intn(3) {
+		case 0:
+			fs[i].Value = perturb(r, fs[i].Value)
+		case 1:
+			fs = append(fs[:i], fs[i+1:]...)
+		default:
+			r.Shuffle(len(fs), func(a, b int) { fs[a], fs[b] = fs[b], fs[a] })
+		}
+		return wire.NewValueStruct(wire.Struct{Fields: fs})
+	case wire.TList, wire.TSet:
+		l := v.GetList()
+		es := wire.ValueListToSlice(l)
+		es = append([]wire.Value(nil), es...)
+		if len(es) == 0 {
+			return v
+		}
+		switch r.Intn(3) {
+		case 0:
+			i := r.Intn(len(es))
+			es[i] = perturb(r, es[i])
+		case 1:
+			es = es[:len(es)-1]
+		default:
+			r.Shuffle(len(es), func(a, b int) { es[a], es[b] = es[b], es[a] })
+		}
+		nl := wire.ValueListFromSlice(l.ValueType(), es)
+		if v.Type() == wire.TSet {
+			return wire.NewValueSet(nl)
+		}
+		return wire.NewValueList(nl)
+	case wire.TMap:
+		m := v.GetMap()
+		ms := append([]wire.MapItem(nil), wire.MapItemListToSlice(m)...)
+		if len(ms) == 0 {
+			return v
+		}
+		switch r.Intn(3) {
+		case 0:
+			i := r.Intn(len(ms))
+			ms[i].Value = perturb(r, ms[i].Value)
+		case 1:
+			ms = ms[:len(ms)-1]
+		default:
+			r.Shuffle(len(ms), func(a, b int) { ms[a], ms[b] = ms[b], ms[a] })
+		}
+		return wire.NewValueMap(wire.MapItemListFromSlice(m.KeyType(), m.ValueType(), ms))
+	case wire.TI32:
+		return wire.NewValueI32(v.GetI32() + 1)
+	case wire.TBinary:
+		return wire.NewValueBinary(append(append([]byte(nil), v.GetBinary()...), 1))
+	case wire.TDouble:
+		if v.GetDouble() == 0 {
+			return wire.NewValueDouble(-v.GetDouble()) // +0 <-> -0
+		}
+		return wire.NewValueDouble(v.GetDouble() + 1)
+	}
+	return randValue(r, v.Type(), 0)
+}
+
+func cmdC14W(args []string) error {
+	c := newCommon("c14w")
+	c.fs.Parse(args)
+	out, err := newObsWriter(c.out)
+	if err != nil {
+		return err
+	}
+	defer out.close()
+	emit := func(id string, a, b wire.Value) error {
+		o := wj.J{"op": "weq", "id": id, "a": wj.ToJSON(a), "b": wj.ToJSON(b), "panic": "", "ab": "unset", "ba": "unset", "aa": "unset"}
+		o["panic"] = safely(func() { o["ab"], o["ba"], o["aa"] = weq(a, b), weq(b, a), weq(a, a) })
+		return out.write(o)
+	}
+	// pairs from the TLC-generated universe (cases hold single values; pair each with its neighbours of the same type)
+	var vals []wire.Value
+	err = readCases(c.cases, func(m map[string]interface{}) error {
+		v, err := wj.FromJSON(m["v"])
+		if err == nil {
+			vals = append(vals, v)
+		}
+		return err
+	})
+	if err != nil {
+		return err
+	}
+	r := rand.New(rand.NewSource(c.seed))
+	byType := map[wire.Type][]wire.Value{}
+	for _, v := range vals {
+		byType[v.Type()] = append(byType[v.Type()], v)
+	}
+	n := 0
+	for _, v := range vals {
+		peers := byType[v.Type()]
+		for k := 0; k < 3; k++ {
+			if err := emit(fmt.Sprintf("u%d", n), v, peers[r.Intn(len(peers))]); err != nil {
+				return err
+			}
+			n++
+		}
+		if err := emit(fmt.Sprintf("u%d", n), v, perturb(r, v)); err != nil {
+			return err
+		}
+		n++
+	}
+	for i := 0; i < c.random; i++ {
+		t := allTypes[r.Intn(len(allTypes))]
+		a := randValue(r, t, 1+r.Intn(3))
+		fa, _ := wj.Force(a)
+		b := fa
+		if r.Intn(3) != 0 {
+			b = perturb(r, fa)
+		}
+		if err := emit(fmt.Sprintf("r%d", i), fa, b); err != nil {
+			return err
+		}
+	}
+	return nil
+}
